@@ -469,6 +469,30 @@ theorem mergeD_has_parent : ∀ (par own : Dict), ∀ kv ∈ par, (mergeD par ow
       · rw [if_neg hh]; exact mergeD_has_mono par _ _ (by rw [has_set]; simp)
     · exact mergeD_has_parent par _ kv h
 
+/-- a parent binding the child lacks arrives in the merge with the parent's value (parent keys unique: a Python dict) -/
+theorem mergeD_parent_value : ∀ (par own : Dict), par.keys.Nodup → ∀ kv ∈ par, own.has kv.1 = false →
+    (mergeD par own).get? kv.1 = some kv.2
+  | [], _, _, kv, h, _ => by cases h
+  | kv' :: par, own, hnd, kv, h, hown => by
+    simp only [Dict.keys, List.map_cons, List.nodup_cons] at hnd
+    simp only [mergeD, List.foldl_cons]
+    rcases List.mem_cons.mp h with e | h
+    · subst e
+      rw [if_neg (by simp [hown])]
+      exact mergeD_keeps_own par _ kv.1 kv.2 (get?_set_self own kv.1 kv.2)
+    · have hne : kv.1 ≠ kv'.1 := by
+        intro e
+        apply hnd.1
+        rw [← e]
+        exact List.mem_map.mpr ⟨kv, h, rfl⟩
+      by_cases hh : own.has kv'.1 = true
+      · rw [if_pos hh]
+        exact mergeD_parent_value par own hnd.2 kv h hown
+      · rw [if_neg hh]
+        apply mergeD_parent_value par _ hnd.2 kv h
+        rw [has_set, hown]
+        simp [hne]
+
 /-- the loop of `add_child` over the parent's bindings computes `mergeD` on the child's own map -/
 theorem attach_fold_root (fuel c : Nat) (K : Nat → List Nat) (hac : ∀ k ∈ K c, ¬ Reach K k c) :
     ∀ (d : Dict) (H : NsHeap), (∀ a, H.ns a < H.next) → H.kids = K →
